@@ -37,6 +37,7 @@ properties! {
     "C14" => c14,
     "C15" => c15,
     "C16" => c16,
+    "C17" => c17,
     "C18" => c18,
     "C20" => c20,
 }
